@@ -2,7 +2,6 @@ package effects
 
 import (
 	"fmt"
-	"go/constant"
 	"go/token"
 	"go/types"
 	"os"
@@ -1289,5 +1288,3 @@ func (s *maState) classify(ev ssa.Value, b *ssa.BasicBlock, st bitset) bitset {
 	}
 	return st
 }
-
-var _ = constant.Int
